@@ -38,6 +38,14 @@ reg("C05", "history + executable model: replay-buffer contents after real DQN/SA
     "stream continuity per environment (no foreign transition). Exploration over sampled configurations.",
     "Trusts the harness FiniteMDP/RefMDP pair and the ring read-back order (decided separately by C06).")
 
+reg("C08", "reference-model monitor: float64 formulas of the published objectives vs the real static loss functions / *_grad; one-sample gradient-support probes; real optimiser step vs independent optax chain",
+    "Held on every buffer explored: PPO/A2C/REINFORCE loss values and statistics equal float64 formulas written from the property "
+    "(clipped surrogate, PPO2 max value clipping, entropy, approx KL) across flag/coefficient grids and ratio classes around both clip edges; "
+    "one-sample buffers show zero policy gradient exactly in the clipped region; on-policy data gives ratio 1 / KL 0; one real update equals "
+    "clip_by_global_norm+adam on the same gradient (Adam first moment exposes the clipped gradient). Exploration over sampled buffers.",
+    "Trusts policy.evaluate_action outputs as inputs of the formulas, NumPy float64, optax as reference optimiser. Constant advantages under "
+    "normalisation only where the float32 mean is exact.")
+
 
 def main():
     props = [json.loads(l) for l in (ROOT / "properties.jsonl").read_text().splitlines() if l.strip()]
